@@ -341,6 +341,31 @@ func c19Run(ctx *core.Ctx) {
 			}
 		}
 	}
+	// ---- sizes: 63..200 rows (every row must be its own INSERT carrying that row's values)
+	for _, n := range []int{63, 64, 65, 128, 129, 200} {
+		id := model.Col{Name: "id", Kind: model.Int}
+		sc := model.Col{Name: "s", Kind: model.String}
+		fc := model.Col{Name: "f", Kind: model.Float}
+		bc := model.Col{Name: "b", Kind: model.Bool}
+		for r := 0; r < n; r++ {
+			id.Cells = append(id.Cells, model.I(r))
+			if r%7 == 5 {
+				sc.Cells = append(sc.Cells, model.Null())
+			} else {
+				sc.Cells = append(sc.Cells, model.S(fmt.Sprintf("row-%03d", r)))
+			}
+			fc.Cells = append(fc.Cells, model.F(float64(r)+0.5))
+			bc.Cells = append(bc.Cells, model.B(r%3 == 0))
+		}
+		f := model.Frame{N: n, Cols: []model.Col{id, sc, fc, bc}}
+		for shape := 0; shape < model.NShapes; shape++ {
+			for _, incr := range []bool{false, true} {
+				if ctx.Mine() {
+					execT(toSQLCase{Kind: "tosql", Frame: f, Shape: shape, Escape: `"`, Incr: incr, Table: "t", ReadBack: true})
+				}
+			}
+		}
+	}
 	// ---- names: table and column names with characters that mean something to printf, SQL or the escaping
 	nameAlpha := []string{"a", "growth%", "100%done", "%s", "%d%%", "%!v", "a'b", "semi;colon", "x,y", "(p)", "?", "\u00fcn\u00ef", "a.b", "-- c"}
 	for _, table := range nameAlpha {
